@@ -4,11 +4,11 @@
 (* is appended to the buffer and reaches memory at a later Flush step; a load returns the newest buffered store of the    *)
 (* same CPU to that location, else memory; a locked instruction (the exchange on background_locked) drains the buffer     *)
 (* first.  TSO = TRUE uses the buffers; TSO = FALSE flushes every store at once (sequential consistency).                 *)
-(*   foreground_lock():       fg := TRUE (store);  wait while bg (load)                                                   *)
+(*   foreground_lock():       fg := TRUE (store);  [full fence, if Fence];  wait while bg (load)                              *)
 (*   background_try_lock():   wait while fg (load); if exchange(bg, TRUE) then fail; if ~fg (load) then locked            *)
 (*                            else bg := FALSE (store) and retry                                                          *)
 EXTENDS Naturals, Sequences, FiniteSets, TLC
-CONSTANTS TSO, Rounds
+CONSTANTS TSO, Rounds, Fence      \* Fence = TRUE: foreground_lock() has a full fence between its store and its load (fix 992afa2)
 F == "F"   \* the foreground CPU (owner vCPU)
 B == "B"   \* a background CPU (stealing vCPU)
 VARIABLES mem, sb, pc, rounds, incs
@@ -26,7 +26,8 @@ Flush(c) == /\ sb[c] # <<>> /\ mem' = [mem EXCEPT ![Head(sb[c])[1]] = Head(sb[c]
             /\ UNCHANGED <<pc, rounds, incs>>
 (* foreground *)
 FStart == /\ pc[F] = "idle" /\ rounds[F] > 0 /\ Store(F, "fg", TRUE) /\ Goto(F, "f_wait") /\ UNCHANGED <<rounds, incs>>
-FWait == /\ pc[F] = "f_wait" /\ ~Load(F, "bg") /\ Goto(F, "cs") /\ incs' = incs \cup {F} /\ UNCHANGED <<mem, sb, rounds>>
+FWait == /\ pc[F] = "f_wait" /\ (Fence => sb[F] = <<>>)             \* the fence: the store buffer has drained before the load
+         /\ ~Load(F, "bg") /\ Goto(F, "cs") /\ incs' = incs \cup {F} /\ UNCHANGED <<mem, sb, rounds>>
 FUnlock == /\ pc[F] = "cs" /\ incs' = incs \ {F} /\ Store(F, "fg", FALSE)
            /\ rounds' = [rounds EXCEPT ![F] = @ - 1] /\ Goto(F, "idle")
 (* background *)
